@@ -778,6 +778,11 @@ func (a *baseScriptAddress) unlock(key EncryptorDecryptor) ([]byte, error) {
 	if len(a.scriptClearText) == 0 {
 		script, err := key.Decrypt(a.scriptEncrypted)
 		if err != nil {
+			// Scripts imported before the script crypto key was
+			// restored on Unlock are sealed under the all-zero key.
+			script, err = decryptLegacyScript(a.scriptEncrypted, err)
+		}
+		if err != nil {
 			str := fmt.Sprintf("failed to decrypt script for %s",
 				a.address)
 			return nil, managerError(ErrCrypto, str, err)
